@@ -8,12 +8,17 @@
    resolves it to that very object; hence two different objects never share
    a fragment.  The position used is the one index() reports, which C04
    proves is the position of iteration for unique collections.
+   That premise (`single_slots_ok`) holds in EVERY REACHABLE STATE of every
+   well-formed metamodel (C11_…_in_every_reachable_state below, through the global
+   ownership invariant of Proofs/OwnAll.v), so the two theorems hold at any
+   point of any editing history.
    PARTIAL: name-based fragments of metamodel elements and ids after a load
    are decided by the implementation oracle only (harness/props/c11.py);
    the rendering of segments as text ('/@name.index') is compared with the
    implementation by the correspondence. *)
 From Coq Require Import ZArith List Bool Arith.
-From PyecoreV Require Import Lib.PyBase Lib.PyList Model.Kernel Model.Fragment Proofs.C11Proofs.
+From PyecoreV Require Import Lib.PyBase Lib.PyList Model.Kernel Model.Fragment Proofs.C01Full Proofs.C11Proofs Proofs.WFBase
+  Proofs.OwnAll Proofs.WFCorollaries Proofs.C11Hist.
 Import ListNotations.
 
 Theorem C11_fragment_resolves_to_its_object :
@@ -47,3 +52,25 @@ Example C11_witness :
   frag_segs 5 ex_mm s 2 = Some (0, [SMany 0 0]) /\ root_prefix s (Some 0) 0 = Some (Some 0) /\
   resolve s 0 (Some 0) [SMany 0 0] = Some 2.
 Proof. vm_compute. repeat split; reflexivity. Qed.
+
+(* ---------- at any point of any editing history ---------- *)
+Theorem C11_fragment_resolves_to_its_object_in_every_reachable_state :
+  forall m, wf_mm m -> ref_defaults_none m -> forall ops, Forall (op_many m) ops ->
+  forall fuel o root segs r pre,
+    frag_segs fuel m (reach m ops) o = Some (root, segs) ->
+    root_prefix (reach m ops) (Some r) root = Some pre ->
+    In root (rcont (reach m ops) r) ->
+    resolve (reach m ops) r pre segs = Some o.
+Proof. exact reach_resolve_fragment. Qed.
+Print Assumptions C11_fragment_resolves_to_its_object_in_every_reachable_state.
+
+Theorem C11_fragments_are_distinct_in_every_reachable_state :
+  forall m, wf_mm m -> ref_defaults_none m -> forall ops, Forall (op_many m) ops ->
+  forall fuel o1 o2 root1 root2 segs r pre,
+    frag_segs fuel m (reach m ops) o1 = Some (root1, segs) ->
+    frag_segs fuel m (reach m ops) o2 = Some (root2, segs) ->
+    root_prefix (reach m ops) (Some r) root1 = Some pre -> root_prefix (reach m ops) (Some r) root2 = Some pre ->
+    In root1 (rcont (reach m ops) r) -> In root2 (rcont (reach m ops) r) ->
+    o1 = o2.
+Proof. exact reach_fragments_distinct. Qed.
+Print Assumptions C11_fragments_are_distinct_in_every_reachable_state.
